@@ -2,7 +2,7 @@
 from vf.driver import contract_units
 
 LEVEL = "proof"
-MODULES = ["contracts.c_utils", "contracts.c_primitives", "contracts.c_session"]
+MODULES = ["contracts.c_utils", "contracts.c_primitives", "contracts.c_session", "contracts.c_auth"]
 EXPLANATION = ("Framing (_receive_bytes/_receive_request) is proved for every chunking of the byte "
                "stream by a loop invariant over a ghost model of the socket; the message loop is "
                "proved against trace predicates (exactly one response, engine entered only after a "
